@@ -15,7 +15,7 @@ exit 1  a counterexample was found (VIOLATION line printed when the native repla
 exit 2  the check itself is broken on this tree (harness does not build, vacuous witness)
 """
 import argparse, dataclasses, hashlib, importlib.util, json, os, re, resource, shutil, signal
-import subprocess, sys, time, random
+import subprocess, sys, time, random, shlex
 from concurrent.futures import ThreadPoolExecutor, as_completed
 from dataclasses import dataclass, field
 from typing import Dict, List, Optional
@@ -53,6 +53,7 @@ class Job:
     min_witnesses: int = 1
     cost: int = 1                  # scheduling weight (expensive first)
     solver: str = "cadical"        # cbmc --sat-solver (minisat2 | cadical)
+    ignore: List[tuple] = field(default_factory=list)   # (regex on CBMC check description, reason): documented tool artifacts, listed in evidence
 
 
 def load_jobs(pid: str, tier: str) -> List[Job]:
@@ -217,6 +218,10 @@ def run_job(job: Job, builder: Builder, work: str):
     n_ok = 0
     for p in parsed["props"]:
         d, st = p["desc"], p["status"]
+        if st not in ("SUCCESS", "FAILURE"):
+            # e.g. "ERROR" when the solver ran out of memory: never success, never vacuity
+            res.setdefault("other_status", []).append([p["id"], st])
+            continue
         if d.startswith("WITNESS:"):
             (res["witness_ok"] if st == "FAILURE" else res["witness_vacuous"]).append(d[8:].strip())
             continue
@@ -234,18 +239,24 @@ def run_job(job: Job, builder: Builder, work: str):
         if d.startswith("unwinding assertion") or "recursion unwinding assertion" in d:
             res["unwinding_failed"].append({"id": p["id"], "desc": d, "loc": p["loc"]})
             continue
+        ign = [rs for rx, rs in job.ignore if re.search(rx, d)]
+        if ign:
+            res.setdefault("excluded_checks", []).append({"id": p["id"], "desc": d, "loc": p["loc"], "reason": ign[0]})
+            continue
         if d.startswith("FINDING:"):
             res["findings_hit"].append({"key": d[8:].strip(), "id": p["id"], "loc": p["loc"]})
             continue
         res["failed"].append({"id": p["id"], "desc": d, "loc": p["loc"], "func": p["func"]})
     res["obligations"] = len([p for p in parsed["props"] if not p["desc"].startswith("WITNESS:")])
     res["obligations_unsat"] = n_ok
-    if res["no_body"]:
+    if res.get("other_status") or parsed["status"] not in ("success", "failure"):
+        res["verdict"] = "not_decided"; res["detail"] = f"cbmc status {parsed['status']}; undecided obligations: {len(res.get('other_status', []))} (solver error / out of memory)"
+    elif res["no_body"]:
         res["verdict"] = "broken"; res["detail"] = "functions without body reached: " + ",".join(res["no_body"])
     elif res["failed"] or (job.termination_is_property and res["unwinding_failed"]):
         res["verdict"] = "sat"
     elif res["unwinding_failed"]:
-        res["verdict"] = "not_decided"; res["detail"] = "unwinding assertion failed (bound too small)"
+        res["verdict"] = "not_decided"; res["detail"] = "unwinding assertion failed (bound too small): " + ", ".join(f"{u['id']}@{u['loc']}" for u in res["unwinding_failed"][:6])
     elif res["witness_vacuous"] or len(res["witness_ok"]) < job.min_witnesses:
         res["verdict"] = "broken"; res["detail"] = "vacuous: witness not reachable: " + ",".join(res["witness_vacuous"] or ["<none present>"])
     else:
@@ -281,7 +292,7 @@ gcc -g -O0 -w -fsanitize=address,undefined -fno-sanitize-recover=undefined -fno-
   || {{ echo "replay build failed"; tail -20 "$B/build.log"; exit 3; }}
 VF_REPLAY_FILE="$D/inputs.txt" ASAN_OPTIONS=detect_leaks=0:abort_on_error=0 timeout 60 "$B/replay" 2>"$B/err.log"
 rc=$?
-tail -40 "$B/err.log" >&2
+cp "$B/err.log" "$D/replay.stderr.log" 2>/dev/null; grep -a -m12 -E "vf-show|VF-REPLAY|ERROR: AddressSanitizer|runtime error|^    #[0-4] " "$B/err.log" >&2
 echo "replay exit code: $rc"
 if [ $rc -eq 124 ]; then {hangline} fi
 if grep -qE "VF-REPLAY-ASSERT-FAILED|ERROR: AddressSanitizer|runtime error:|SUMMARY: UndefinedBehaviorSanitizer" "$B/err.log"; then echo "REPRODUCED"; exit 1; fi
@@ -318,7 +329,7 @@ def make_replay(pid, job: Job, res, work):
     hang = ", or hang when termination is the property" if job.termination_is_property else ""
     hangline = 'echo "REPRODUCED (hang)"; exit 1;' if job.termination_is_property else 'echo "NOT REPRODUCED (timeout)"; exit 0;'
     with open(os.path.join(rdir, "replay.sh"), "w") as f:
-        f.write(REPLAY_SH.format(repo=REPO, cpp=" ".join(CPPFLAGS), defs=" ".join(dflags(job.defines)),
+        f.write(REPLAY_SH.format(repo=REPO, cpp=" ".join(CPPFLAGS), defs=" ".join(shlex.quote(x) for x in dflags(job.defines)),
                                  srcs=srcs, verif=VERIF, hang=hang, hangline=hangline))
     os.chmod(os.path.join(rdir, "replay.sh"), 0o755)
     with open(os.path.join(rdir, "obligation.json"), "w") as f:
@@ -406,7 +417,7 @@ def run_property(pid, tier, njobs, only=None, keep=False):
         for j, r in sorted(results, key=lambda x: x[0].name):
             samples.append({k: r.get(k) for k in ("job", "group", "shape", "bounds", "verdict", "obligations",
                                                    "obligations_unsat", "vccs", "sat_vars", "sat_clauses", "solver_s", "symex_s",
-                                                   "cbmc_wall_s", "witness_ok", "findings_hit", "cbmc_cmd", "defines")
+                                                   "cbmc_wall_s", "witness_ok", "findings_hit", "excluded_checks", "cbmc_cmd", "defines")
                             if r.get(k) not in (None, [], {})})
         ev = {
             "property_id": pid, "tier": tier, "seed": seed, "level": "model_checking",
